@@ -29,7 +29,7 @@ ASSUMPTIONS = [
     "a partial frame cut by an injected write error is attributed by the reference encoder (ref/encode.py)",
     "the +/-1 step and control-method flip have no public entry point; they are exercised at socket level with the non-idempotent policy and through the API's private command helper when it exists",
 ]
-PROBES = ["c02.chained_sends", "c02.close_window_class", "c02.write_into_closing_transport", "c02.fault_hit_pending", "c02.retry_seen", "c02.expired_after_fault", "c02.reconnect_at_exact_expiry", "c02.single_fault_class",
+PROBES = ["c02.expiry_during_stalled_flush", "c02.chained_sends", "c02.close_window_class", "c02.write_into_closing_transport", "c02.fault_hit_pending", "c02.retry_seen", "c02.expired_after_fault", "c02.reconnect_at_exact_expiry", "c02.single_fault_class",
           "c02.api_class", "c02.toggle_under_fault", "c02.helper_step", "c02.budget_exhausted"]
 EXHAUSTIVE = False
 
@@ -68,9 +68,50 @@ def gen_close_window(rng) -> dict:
     return {"gen": gen, "mode": "socket", "knobs": knobs, "timeline": tl, "end": t_f + 8.0, "class": "close_window", "t_f": t_f + lat}
 
 
+def gen_slow_flush(rng) -> dict:
+    """Several messages wait for the link; the connection that takes them is under flow control from its first byte, so the
+    flush is suspended after the first write - and some of the waiting messages reach the end of their lifetime during that
+    stall. No fault anywhere: nothing may be written at or after its lifetime has elapsed, nothing more than once."""
+    gen = rng.choice([4, 5])
+    acc = rng.choice([0.5, 1.0, 2.0])
+    d = rng.choice([0.5, 1.5, 4.0])
+    knobs = {"latency": rng.choice([0.0, G.TICK]), "first_packet_id": rng.choice([0, 254]), "fates": [{"kind": "accept", "latency": acc}]}
+    tl = [{"at": 0.0, "op": "user.open"}, {"at": 0.0, "op": "net.stall_next", "duration": d}]
+    msgs = sendq.distinct_messages(rng, gen, rng.choice([2, 3, 5]))
+    for i, m in enumerate(msgs):
+        at = G.dyadic(rng, 0.0625, acc - 0.0625)
+        # the first ones live long; later ones end inside the stall, exactly at its end, or survive it
+        end_at = rng.choice([acc + d * 0.5, acc + d, acc + d - G.TICK, acc + G.TICK, acc + d + 1.0]) if i else 30.0 + at
+        tl.append({"at": at, "op": "user.send", "msg": m, "policy": {"retries": rng.choice([0, 2]), "lifetime": max(0.125, end_at - at)}})
+    tl.sort(key=lambda x: x["at"])
+    return {"gen": gen, "mode": "socket", "knobs": knobs, "timeline": tl, "end": acc + d + 3.0, "class": "slow_flush"}
+
+
+def exec_slow_flush(sc: dict) -> dict:
+    w = World(sc).run()
+    V = []
+    probes = {"c02.expiry_during_stalled_flush": 1}
+    h = sendq.History(w)
+    for s in h.subs:
+        if s["exc"] is not None or s["t_accept"] is None:
+            continue
+        deadline = s["t_accept"] + s["lifetime"]
+        attempts = sorted((f["seq"], f["t"]) for f in s["tx"])
+        if len(attempts) > 1:
+            V.append(viol("C02.budget", {"sub": s["id"], "msg": s["desc"], "policy": s["policy"], "attempts": [a[1] for a in attempts], "allowed": 1, "slow_flush": True}, retries=s["retries"]))
+        for a in attempts:
+            if a[1] >= deadline:
+                V.append(viol("C02.deadline", {"sub": s["id"], "msg": s["desc"], "policy": s["policy"], "t": a[1], "accept": s["t_accept"], "lifetime": s["lifetime"], "slow_flush": True},
+                              at_exact=(a[1] == deadline)))
+                break
+    return common.result(w, V, nontrivial=True, probes=probes, evals=max(1, len(h.subs)))
+
+
 def generate(rng, index: int, tier: str) -> dict:
     if rng.random() < 0.25:
         return gen_api(rng)
+    if rng.random() < 0.06:
+        return gen_slow_flush(rng)
     if rng.random() < 0.12:
         return gen_close_window(rng)
     gen = rng.choice([4, 5])
@@ -227,6 +268,8 @@ def gen_api(rng) -> dict:
 def execute(sc: dict) -> dict:
     if sc.get("class") == "api":
         return execute_api(sc)
+    if sc.get("class") == "slow_flush":
+        return exec_slow_flush(sc)
     w = World(sc).run()
     V = []
     probes = {}
